@@ -74,6 +74,12 @@ add("C05", "vp_sig",
     "Trusted: the stream-length model (pointwise keeps, two-source min, delay adds).",
     "DESIGN.md §4 C05")
 
+add("C08", "vp_sig",
+    "proptest + small exhaustive grid against an exact-rational position model with an instrumented source (exact regime ==, general regime derived tolerance)",
+    "Runs of up to 300 outputs (drift runs 2e4 / 1e6) over 5 frame formats, floor and linear interpolators, finite (1..60) and infinite sources, and nine ways of establishing the ratio (three constructors, the Signal methods, mul_hz with a control signal, the three setters before every frame). The model keeps P_n as an exact multiple of 2^-64. Exact regime (ratios k/2^m, grid-valued frames): pulls beyond priming == floor(P_n), floor output == source[floor(P_n)], linear output == exact blend (truncated toward zero for integer formats), is_exhausted() before every output, until_exhausted() count == model and in {ceil((R+1)/r), +1}, one control frame per output for mul_hz. General regime (arbitrary ratios in [1e-3, 1e3]): the same with a tolerance of n*2^-51*(1+r_max) on the position.",
+    "Trusted: the position model, the probe source, f64 exactness on the dyadic grid. The general regime cannot distinguish positions closer than the stated tolerance to an integer.",
+    "DESIGN.md §4 C08")
+
 PENDING_REASON = "check not yet built in this round (design in DESIGN.md §4); nothing is claimed for it until its check is registered"
 
 def main():
